@@ -158,6 +158,24 @@ pub struct Globals {
     pub enums: BTreeMap<String, EnumInfo>,
     pub consts: BTreeMap<String, Vec<ConstInfo>>,
     pub fns: BTreeMap<(Option<String>, String), Vec<FnInfo>>,
+    /// keys of the translated structs / enums with `#[derive(Clone)]` (`x.clone()` is the identity on the representation)
+    pub derive_clone: BTreeSet<String>,
+}
+
+/// does the item carry `#[derive(.., Clone, ..)]`?
+fn derives_clone(attrs: &[syn::Attribute]) -> bool {
+    attrs.iter().any(|a| {
+        a.path().is_ident("derive") && {
+            let mut found = false;
+            let _ = a.parse_nested_meta(|m| {
+                if m.path.is_ident("Clone") {
+                    found = true;
+                }
+                Ok(())
+            });
+            found
+        }
+    })
 }
 
 /// `renetcode/src/replay_protection.rs` -> `renetcode.replay_protection`
@@ -297,6 +315,7 @@ impl Globals {
             enums: BTreeMap::new(),
             consts: BTreeMap::new(),
             fns: BTreeMap::new(),
+            derive_clone: BTreeSet::new(),
         };
         register_builtins(&mut g);
         // pass 1: names (keys) of translated types
@@ -409,7 +428,12 @@ impl Globals {
                                     }
                                 }
                             }
-                            _ => return err_at(path, s.span(), "only structs with named fields are supported"),
+                            // a unit struct (`struct ClientNotFound;`): the structure without fields
+                            syn::Fields::Unit if view_fields.is_none() => {}
+                            _ => return err_at(path, s.span(), "only structs with named fields (or unit structs) are supported"),
+                        }
+                        if derives_clone(&s.attrs) {
+                            g.derive_clone.insert(type_key(path, &s.ident.to_string(), &type_names));
                         }
                         g.structs.insert(type_key(path, &s.ident.to_string(), &type_names), StructInfo { group: group.clone(), ns: ns.clone(), name: s.ident.to_string(), fields, view, ignored });
                     }
@@ -463,6 +487,9 @@ impl Globals {
                                 }
                             };
                             variants.push(VariantInfo { name: v.ident.to_string(), fields, discr });
+                        }
+                        if derives_clone(&e.attrs) {
+                            g.derive_clone.insert(type_key(path, &e.ident.to_string(), &type_names));
                         }
                         g.enums.insert(type_key(path, &e.ident.to_string(), &type_names), EnumInfo { group: group.clone(), ns: ns.clone(), name: e.ident.to_string(), variants, all_unit });
                     }
@@ -533,12 +560,17 @@ impl Globals {
                                     if let syn::Type::Reference(r) = &*pt.ty {
                                         if r.mutability.is_some() {
                                             // cursors of the semantic models and plain integers are threaded through
-                                            let int_ref = matches!(conv_ty(path, &r.elem, self_ty.as_deref(), &type_names), Ok(Ty::Int(_)));
+                                            // (so is a translated struct: the borrow checker keeps it disjoint from `self`
+                                            // and from every other argument)
+                                            let int_ref = matches!(
+                                                conv_ty(path, &r.elem, self_ty.as_deref(), &type_names),
+                                                Ok(Ty::Int(_)) | Ok(Ty::Named(_))
+                                            );
                                             if !(is_model_type(&r.elem) || int_ref) || name == "_" {
                                                 return err_at(
                                                     path,
                                                     pt.ty.span(),
-                                                    "`&mut` parameter (other than self, a semantic-model cursor or an unsigned integer) is not supported",
+                                                    "`&mut` parameter (other than self, a semantic-model cursor, an unsigned integer or a translated struct) is not supported",
                                                 );
                                             }
                                             mut_params.push(name.clone());
@@ -700,9 +732,30 @@ fn generic_args(seg: &syn::PathSegment) -> Vec<&syn::Type> {
 pub fn conv_ty(file: &str, t: &syn::Type, self_ty: Option<&str>, type_names: &[String]) -> R<Ty> {
     match t {
         syn::Type::Reference(r) => conv_ty(file, &r.elem, self_ty, type_names),
-        syn::Type::ImplTrait(_) => match impl_trait_model(t) {
+        syn::Type::ImplTrait(it) => match impl_trait_model(t) {
             Some(n) => Ok(Ty::Named(n.to_string())),
-            None => err_at(file, t.span(), "unsupported `impl Trait` (only `impl io::Read` / `impl io::Write`)"),
+            None => {
+                // `impl Iterator<Item = T> + '_`: the list of its items (see the RustSem header: evaluated eagerly)
+                for b in &it.bounds {
+                    if let syn::TypeParamBound::Trait(tb) = b {
+                        if let Some(seg) = tb.path.segments.last() {
+                            if seg.ident == "Iterator" {
+                                if let syn::PathArguments::AngleBracketed(a) = &seg.arguments {
+                                    for x in &a.args {
+                                        if let syn::GenericArgument::AssocType(at) = x {
+                                            if at.ident == "Item" {
+                                                let e = conv_ty(file, &at.ty, self_ty, type_names)?;
+                                                return Ok(Ty::List(Box::new(e), ListKind::Iter));
+                                            }
+                                        }
+                                    }
+                                }
+                            }
+                        }
+                    }
+                }
+                err_at(file, t.span(), "unsupported `impl Trait` (only `impl io::Read` / `impl io::Write` / `impl Iterator<Item = T>`)")
+            }
         },
         syn::Type::Paren(p) => conv_ty(file, &p.elem, self_ty, type_names),
         syn::Type::Group(p) => conv_ty(file, &p.elem, self_ty, type_names),
